@@ -25,7 +25,34 @@ def _f(x):
 
 
 def halves(p):
+    """The two halves of a pulse from geometry.  The far end of a half is NOT taken from the code's bookkeeping
+    (`p.ends`) when the half lies on a real wire: it is the other end of the segment of that wire that touches the
+    pulse point (for a half below the ground plane: the mirror image of it)."""
     pt, e0, e1 = _f(p.point), _f(p.ends[0]), _f(p.ends[1])
+    ends = [e0, e1]
+    tol = 1e-7 * max(float(np.linalg.norm(e1 - pt)), float(np.linalg.norm(pt - e0)), 1e-300)
+    gnd = np.asarray(p.ground)
+    for h in (0, 1):
+        segs = getattr(p.geo[h], 'segments', None)
+        if not segs:
+            continue
+        cands = []
+        for sg in segs:
+            a, b = _f(sg.p1), _f(sg.p2)
+            if np.linalg.norm(a - pt) <= tol:
+                cands.append(b)
+            elif np.linalg.norm(b - pt) <= tol:
+                cands.append(a)
+        if gnd[h]:
+            cands = [c * np.array([1.0, 1.0, -1.0]) for c in cands]
+        if len(cands) == 1:
+            ends[h] = cands[0]
+        elif len(cands) == 2 and p.geo[0] is p.geo[1]:
+            # interior pulse (or grounded pulse: real segment and its image): keep the code's assignment if it is one of the two
+            d = [float(np.linalg.norm(c - ends[h])) for c in cands]
+            if min(d) > tol:
+                ends[h] = cands[h]
+    e0, e1 = ends
     out = []
     for h, (a, b) in enumerate(((e0, pt), (pt, e1))):
         v = b - a
